@@ -546,6 +546,115 @@ def fault_history(ctx):
     ctx.cov.update(fault_history_files=[f for f, _ in files], fault_history_mutations=len(jobs))
 
 
+PROBE_FILES = [("h2o_sto3g.fchk", None), ("water_sto3g_hf.wfx", None), ("h2o_sto3g.wfn", None), ("water.mol2", None)]
+
+
+def history_probes(thorough):
+    """Damaged files that only late consistency checks can reject (a row missing from a table, a counter off by one)."""
+    from mc import fe
+    from mc.core import CORPUS
+
+    out = []
+    for fn, fmt in PROBE_FILES:
+        text = (CORPUS / fn).read_text()
+        muts = list(fe.table_row_deletions(text)) + [(k, m) for k, m in fe.token_substitutions(text, menu=["DEC1"], max_tokens=None if thorough else 60)]
+        if not thorough:
+            muts = muts[:: max(1, len(muts) // 20)]
+        out += [(fn, fmt, key, m) for key, m in muts]
+    return out
+
+
+def failed_load_history_worker(chunk, seed, tier):
+    """The outcome of loading each probe must be the same in a process that has just had a load of a damaged file F
+    (whatever F's own outcome) as in a process without it: a failing load must leave nothing behind."""
+    import pickle
+
+    from iodata import load_one
+    from mc.core import Part, make_scratch
+
+    part = Part(seed, tier)
+    tmp = make_scratch()
+    probes = history_probes(tier == "thorough")
+    ppaths = []
+    for i, (fn, fmt, _key, text) in enumerate(probes):
+        path = str(tmp / f"probe{i:03d}_{fn}")
+        with open(path, "w") as fh:
+            fh.write(text)
+        ppaths.append((path, fmt))
+
+    def one(path, fmt):
+        try:
+            return ("ok", c16calls.digest_obj(load_one(path, fmt=fmt)))
+        except Exception as exc:  # noqa: BLE001
+            return ("exc", type(exc).__name__, str(exc).replace(os.path.dirname(path), "<dir>")[:200])
+
+    def in_child(first):
+        r, w = os.pipe()
+        pid = os.fork()
+        if pid == 0:
+            code = 0
+            try:
+                os.close(r)
+                with warnings.catch_warnings():
+                    warnings.simplefilter("ignore")
+                    res = [one(*first)] if first else [None]
+                    res += [one(pp, pf) for pp, pf in ppaths]
+                with os.fdopen(w, "wb") as fh:
+                    pickle.dump(res, fh)
+            except BaseException:  # noqa: BLE001
+                code = 1
+            finally:
+                os._exit(code)
+        os.close(w)
+        with os.fdopen(r, "rb") as fh:
+            data = fh.read()
+        os.waitpid(pid, 0)
+        return pickle.loads(data) if data else None
+
+    try:
+        base = in_child(None)
+        for fn, fmt, key, mutated in chunk:
+            part.count()
+            bad = str(tmp / ("bad_" + fn))
+            with open(bad, "w") as fh:
+                fh.write(mutated)
+            got = in_child((bad, fmt))
+            info = {"file": fn, "fault": list(key)}
+            part.nontrivial(("failed-load-history", fn, key))
+            if base is None or got is None:
+                part.violation("interleaving", f"failed-load-history:child-died:{fn}", info, f"child process died ({fn} {key})")
+                continue
+            diff = [i for i in range(len(probes)) if base[i + 1] != got[i + 1]]
+            part.outcome("failed-load-history", "same:" + got[0][0] + (":" + got[0][1] if got[0][0] == "exc" else "") if not diff else "DEPENDS-ON-HISTORY")
+            if diff:
+                i = diff[0]
+                part.violation("interleaving", f"outcome-depends-on-earlier-failed-load:{fn}", info,
+                               f"after a load of {fn} damaged by {key} (outcome {got[0]}), {len(diff)} of {len(probes)} damaged probe files are judged differently; "
+                               f"first: {probes[i][0]} {probes[i][2]}: alone {base[i + 1]}, afterwards {got[i + 1]}")
+    finally:
+        shutil.rmtree(tmp, ignore_errors=True)
+    return part.result()
+
+
+def failed_load_history(ctx):
+    from mc import fe
+    from mc.core import CORPUS
+    from mc.pool import pmap
+
+    files = [("h2o_sto3g.wfn", None), ("water_sto3g_hf.wfx", None), ("h2o_sto3g.fchk", None), ("h2o.molden.input", None)]
+    if ctx.thorough:
+        files += [("h2_sto3g.mkl", None), ("ch3_hf_sto3g_fchk_multiwfn3.7.mwfn", None), ("water.mol2", None), ("water_single.pdb", None)]
+    jobs = []
+    for fn, fmt in files:
+        text = (CORPUS / fn).read_text()
+        muts = list(fe.token_substitutions(text, menu=["abc", "INC1", "ZERO"], max_tokens=None if ctx.thorough else 300)) + list(fe.line_edits(text) if len(text.splitlines()) < 400 else [])
+        if not ctx.thorough:
+            muts = muts[:: max(1, len(muts) // 120)]
+        jobs += [(fn, fmt, key, m) for key, m in muts]
+    pmap(ctx, failed_load_history_worker, jobs, chunk=24)
+    ctx.cov.update(failed_load_history_files=[f for f, _ in files], failed_load_history_mutations=len(jobs), failed_load_history_probes=len(history_probes(ctx.thorough)))
+
+
 def dense_pairs():
     from mc.core import CORPUS
 
@@ -703,6 +812,7 @@ def run(ctx):
     watch_tables(ctx, n)
     interleaved_iterators(ctx)
     fault_history(ctx)
+    failed_load_history(ctx)
     thread_schedules(ctx)
     dense_thread_pass(ctx)
     ctx.evaluations += 0
@@ -718,7 +828,10 @@ def run(ctx):
         "interleaved iterators: every order of the 4+4 steps of two load_many iterators (21 same-/cross-format pairs of XYZ, SDF, MOL2, PDB, GRO, extXYZ trajectories from independent writers), "
         "plus one unrelated load_one inserted at every position of three orders; every frame must equal the frame obtained when the iterator runs alone. "
         "fault history: for 4 (thorough: 12) corpus files every numeric token scaled / every integer token incremented (quick: ~150 per file); the damaged file must give the same outcome "
-        "in a fresh child process as in a child that loaded the intact file first."
+        "in a fresh child process as in a child that loaded the intact file first. "
+        "failed-load history: for every damaged sibling F (token -> text / +1 / 0, every line deleted / duplicated / swapped; quick ~120 per file) of 4 (thorough: 8) wavefunction files, a child process loads F "
+        "and then a fixed menu of damaged probe files that only late consistency checks can reject (a row missing from every table, every counter decremented; FCHK, WFX, WFN, MOL2); every probe outcome must equal "
+        "its outcome in a child without F."
     )
     ctx.assumptions += ["thread exploration: scheduling points only where process-global state is touched (API wrapper, catch_warnings); module tables are shown read-only by the sequential part",
                         "results are compared through deep bit-exact snapshots / file digests"]
